@@ -46,6 +46,9 @@ func init() {
 			{ID: "R07u", Floor: 1, Doc: "lookups answer from the archive, not from what an earlier call left in the object (= R08o)", Run: ruleR08o},
 			{ID: "R07v", Floor: 1, Doc: "an empty block is found by the index-backed lookups as it is by the scan (= R18u)", Run: ruleR18u},
 			{ID: "R07w", Floor: 7, Doc: "HeaderSize is the size of the encoding WriteHeader produces — the listing seeks by it (= R01c)", Run: ruleR01c},
+			{ID: "R07x", Floor: 1, Doc: "the stores and readers carry no new state from call to call (= R08s)", Run: ruleR08s},
+			{ID: "R07y", Floor: 1, Doc: "a section exactly at the size limit is served by every front-end: the limit test is `>` (= R09b)", Run: ruleR09b},
+			{ID: "R07z", Floor: 2, Doc: "an index read back answers for every hash function it holds: decode and load loops store a fresh object per iteration (= R11i)", Run: ruleR11i},
 		},
 	})
 }
@@ -418,7 +421,7 @@ func ruleR07d(c *Ctx, r *Report) {
 		}
 		key := "key-flattening@" + fnKey(fn)
 		bad := "no flattening NewCidV1(Raw, c.Hash()) found"
-		for _, g := range withAnon(fn) {
+		for _, g := range withNewCallees(fn) {
 			for _, ci := range callsToFunc(g, pkgCid, "", "NewCidV1") {
 				k, isK := constInt(ci.Common().Args[0])
 				hc, _ := callOf(canon(ci.Common().Args[1]))
